@@ -1,8 +1,10 @@
 """C20 - loading from Git leaves repository and filesystem untouched on every path (spec/GitWorktree.tla).
 
 TLC decides the clauses on the model (a crash-point protocol with exhaustive fault placement), in
-separate domains: `clean` (must hold), `dirty` / `window` / `finally` (exhibit the recorded defects)
-and `force` (the proposed fix `git worktree remove --force`, model only).  Binding, both directions:
+separate domains: `clean-*` / `dirty-*` / `all-clean` (must hold; the baseline is Variant = "force", i.e.
+`git worktree remove --force`, what the code does since the repo fix), `window` / `finally` (exhibit the
+two recorded interrupt defects) and `regression-no-force` (Variant = "orig", model only: documents the
+fixed defect; the real code behaving like it again is a VIOLATION).  Binding, both directions:
 
   * REPLAY  every fault schedule TLC enumerates (plan + interrupt positions) is executed by
     gverif/props/c20_worker.py on the REAL load_git / check against a REAL git repository; the terminal
@@ -26,12 +28,17 @@ from gverif.common import SEED, die, ensure_repo, scratch
 from gverif.harness import Run
 from gverif.props import c20_worker
 
-ALL_REFS = ["v1", "feat/x", "x", "bad", "v0", "nope", "HEAD"]
-SAFE = ["LatestTag", "RepoRoot", "AssertRepo", "MkTmp", "WorktreeAdd", "Find", "Analyse", "ExtensionHook", "ResolveAliases", "Return", "RmTmp"]
+# What the code does NOW: `git worktree remove --force` (repo commit "fix: force removal of the temporary git
+# worktree").  Variant "orig" (no --force) is kept only as a regression domain of the model.
+BASELINE = "force"
+REGRESSION = "orig"
+TLC_HEAP = "1g"
+ALL_REFS = ["v1", "feat/x", "feat-x", "x", "bad", "v0", "nope", "HEAD", "HEAD~1", "refs/tags/v1"]
+SAFE = ["LoadWT", "LatestTag", "RepoRoot", "AssertRepo", "MkTmp", "WorktreeAdd", "Find", "Analyse", "ExtensionHook", "ResolveAliases", "Return", "RmTmp"]
 FINALLY = ["WorktreeRemove", "Prune", "BranchDelete"]
 CLEAN_AN = ["static", "inspect-off", "inspect-ignored"]
 ACTIONS = ["LatestTag", "RepoRoot", "AssertRepo", "MkTmp", "WorktreeAdd", "EnterTry", "Find", "Analyse", "ExtensionHook", "ResolveAliases",
-           "Return", "WorktreeRemove", "Prune", "BranchDelete", "RmTmp", "EndLoad", "Diff", "Interrupt", "Finish"]
+           "Return", "WorktreeRemove", "Prune", "BranchDelete", "RmTmp", "EndLoad", "LoadWT", "Diff", "Interrupt", "Finish"]
 CLAUSES = ["head", "status", "branches", "userbranch", "worktrees", "tmpdirs", "lines", "location"]
 
 
@@ -40,8 +47,8 @@ def tset(xs) -> str:
 
 
 def consts(**kw) -> dict:
-    c = dict(VARIANT="orig", OPS=["load"], REFS1=ALL_REFS, REFS2=["HEAD"], ANALYSES=CLEAN_AN, STATUS=["clean", "dirty"], EXTATS=[0, 1],
-             INTRAT=SAFE, MAXINTR=1, NOTREPO=False, LATEST=False)
+    c = dict(VARIANT=BASELINE, OPS=["load"], REFS1=ALL_REFS, REFS2=["HEAD"], ANALYSES=CLEAN_AN, STATUS=["clean", "dirty"], EXTATS=[0, 1],
+             INTRAT=SAFE, MAXINTR=1, NOTREPO=False, LATEST=False, NOTAGS=False)
     c.update(kw)
     return {k: (tset(v) if isinstance(v, list) else ("TRUE" if v is True else "FALSE" if v is False else v)) for k, v in c.items()}
 
@@ -50,33 +57,46 @@ def domains(tier: str) -> list:
     """(name, constants, expectation): 'hold' = all clauses must hold on the model; 'leak' = the model must exhibit
     the defect (a clause is violated); model_only domains are not replayed."""
     q = tier == "quick"
+    everything = [*CLEAN_AN, "inspect-on"]
+    regression = ("regression-no-force", consts(VARIANT=REGRESSION, OPS=["load", "check"], ANALYSES=["inspect-on"], STATUS=["clean"], EXTATS=[0], REFS1=["v1", "feat/x"],
+                                                REFS2=["HEAD", "v1"]), "leak", False)
+    if q:
+        # few, merged domains: every TLC invocation waits for a machine-wide slot.  "leak-gen": a single
+        # enumeration run; TLC evaluates the clauses (field `untouched` of every CASE) instead of stopping at
+        # the first violated invariant - thorough runs the same domains with the INVARIANT cfg + -dumpTrace
+        return [
+            # load_git: every ref x 4 analyses (incl. inspection writing __pycache__) x extension fault x not-a-repo x
+            # one interrupt at every safe step boundary; user's status clean
+            ("load", consts(NOTREPO=True, STATUS=["clean"], ANALYSES=everything), "hold", True),
+            # check(): latest tag, repo root, two load_git, diff; the user's index / working tree are DIRTY here
+            ("check", consts(OPS=["check"], REFS1=["v1", "bad"], REFS2=["HEAD", "WT"], STATUS=["dirty"], EXTATS=[0, 2], ANALYSES=["static", "inspect-on"], LATEST=True, NOTAGS=True), "hold", True),
+            # KeyboardInterrupt between a successful `worktree add` and `try:`, and inside the finally clause
+            ("interrupts", consts(OPS=["load", "check"], INTRAT=["EnterTry", *FINALLY], REFS1=["v1", "feat/x", "bad"], STATUS=["clean"], EXTATS=[0],
+                                  ANALYSES=["static", "inspect-on"]), "leak-gen", True),
+        ]
     d = [
-        # every ref x {static, inspection without / with ignored bytecode} x user status x extension fault x every
-        # safe interrupt position, for load_git
-        ("clean-load", consts(NOTREPO=True, STATUS=["clean"] if q else ["clean", "dirty"]), "hold", True),
-        # the user's index / working tree carry local modifications (staged, unstaged, untracked)
-        ("clean-load-userdirty", consts(STATUS=["dirty"], ANALYSES=["static"] if q else CLEAN_AN, EXTATS=[0] if q else [0, 1]), "hold", True),
-        # check(): two load_git in sequence, latest tag, diff
-        ("clean-check", consts(OPS=["check"], REFS1=["v1", "bad"] if q else ALL_REFS, REFS2=["HEAD"] if q else ["HEAD", "v1", "feat/x", "nope"],
-                               STATUS=["clean"] if q else ["clean", "dirty"], EXTATS=[0, 2] if q else [0, 1, 2],
-                               ANALYSES=["static"] if q else CLEAN_AN, LATEST=True), "hold", True),
-        # inspection with bytecode writing enabled: __pycache__ blocks `git worktree remove`
-        ("dirty-load", consts(ANALYSES=["inspect-on"], STATUS=["clean"] if q else ["clean", "dirty"]), "leak", True),
-        ("dirty-check", consts(OPS=["check"], ANALYSES=["inspect-on"], REFS1=["v1"] if q else ["v1", "feat/x", "bad", "HEAD"], REFS2=["HEAD", "v1"],
-                               STATUS=["clean"], EXTATS=[0] if q else [0, 1, 2], LATEST=not q), "leak", True),
+        ("clean-load", consts(NOTREPO=True), "hold", True),
+        ("clean-check", consts(OPS=["check"], REFS1=["v1", "feat/x", "x", "bad", "v0", "nope", "HEAD~1"], REFS2=["HEAD", "feat-x", "nope", "WT"], STATUS=["clean"],
+                               ANALYSES=["static", "inspect-off"], EXTATS=[0, 1, 2], LATEST=True, NOTAGS=True), "hold", True),
+        ("clean-check-userdirty", consts(OPS=["check"], REFS1=["v1", "bad"], REFS2=["HEAD", "WT"], STATUS=["dirty"], ANALYSES=["static", "inspect-ignored"], EXTATS=[0, 2],
+                                         LATEST=True), "hold", True),
+        # inspection with bytecode writing enabled: __pycache__ in the checkout; removed thanks to --force
+        ("dirty-load", consts(ANALYSES=["inspect-on"]), "hold", True),
+        ("dirty-check", consts(OPS=["check"], ANALYSES=["inspect-on"], REFS1=["v1", "feat/x", "bad", "HEAD"], REFS2=["HEAD", "v1"], STATUS=["clean"], EXTATS=[0, 1, 2], LATEST=True), "hold", True),
         # KeyboardInterrupt between a successful `worktree add` and `try:`
-        ("window", consts(OPS=["load", "check"], INTRAT=["EnterTry"], REFS1=["v1", "feat/x", "HEAD"] if q else ALL_REFS, STATUS=["clean"], EXTATS=[0],
-                          ANALYSES=["static", "inspect-off"]), "leak", True),
+        ("window", consts(OPS=["load", "check"], INTRAT=["EnterTry"], STATUS=["clean"], EXTATS=[0], ANALYSES=["static", "inspect-off"]), "leak", True),
         # KeyboardInterrupt inside the finally clause
-        ("finally", consts(OPS=["load", "check"], INTRAT=FINALLY, REFS1=["v1", "feat/x", "bad"] if q else ALL_REFS, STATUS=["clean"], EXTATS=[0] if q else [0, 1],
-                           ANALYSES=["static", "inspect-off"]), "leak", True),
-        # the proposed fix on the model: with --force the dirty domain is clean
-        ("force-fix", consts(VARIANT="force", OPS=["load", "check"], REFS2=["HEAD", "v1"], ANALYSES=[*CLEAN_AN, "inspect-on"], EXTATS=[0, 1, 2],
-                             NOTREPO=True, LATEST=True), "hold", False),
+        ("finally", consts(OPS=["load", "check"], INTRAT=FINALLY, STATUS=["clean"], ANALYSES=["static", "inspect-on"]), "leak", True),
+        # the whole clean space at once on the model (both ops, all analyses incl. bytecode on)
+        ("all-clean", consts(OPS=["load", "check"], REFS2=["HEAD", "v1"], ANALYSES=everything, EXTATS=[0, 1, 2], NOTREPO=True, LATEST=True), "hold", False),
+        # regression domain (model only): the code BEFORE the fix (no --force) leaks when inspection writes
+        # __pycache__; if the real code ever behaves like this again the replay reports a VIOLATION
+        # (finding C20-untracked-files-block-worktree-remove is "fixed" and suppresses nothing)
+        regression,
     ]
     if not q:
         # two interrupts per behaviour (the second one strikes during the unwinding caused by the first)
-        d.append(("double", consts(MAXINTR=2, INTRAT=[p for p in SAFE + ["EnterTry"] + FINALLY if p not in ("RmTmp", "LatestTag", "RepoRoot")], STATUS=["clean"],
+        d.append(("double", consts(MAXINTR=2, INTRAT=[p for p in SAFE + ["EnterTry"] + FINALLY if p not in ("RmTmp", "LatestTag", "RepoRoot", "LoadWT")], STATUS=["clean"],
                                    ANALYSES=["static", "inspect-on"]), "leak", True))
     return d
 
@@ -178,6 +198,15 @@ def corruptions(traces: list, rnd: random.Random) -> list:
     # steps swapped: prune before remove
     k_rmv = idx(src, lambda e: e["ev"] == "WorktreeRemove")
     mk(src, "steps-swapped", lambda ev: ev.__setitem__(slice(k_rmv, k_rmv + 2), [ev[k_rmv + 1], ev[k_rmv]]))
+    forced = [t for t in traces if any(e["ev"] == "WorktreeRemove" and e.get("rc") == 0 and t["events"][k - 1]["post"].get("wtDirty") for k, e in enumerate(t["events"]) if k)]
+    if forced:
+        s3 = rnd.choice(forced)
+        k3 = idx(s3, lambda e: e["ev"] == "WorktreeRemove")
+        # the pre-fix behaviour: removal of the dirty checkout logged as failed, entry still registered
+        def unforce(ev):
+            ev[k3]["rc"] = 1
+            ev[k3]["post"] = copy.deepcopy(ev[k3 - 1]["post"])
+        mk(s3, "dirty-remove-fails-like-before-the-fix", unforce)
     if leaky:
         s2 = rnd.choice(leaky)
         k = idx(s2, lambda e: e["ev"] == "WorktreeRemove" and e.get("rc") == 1)
@@ -199,7 +228,7 @@ def validate_traces(run: Run, traces: list, workdir: str, variant: str, nchunks:
         paths.append(p)
     with ThreadPoolExecutor(max_workers=len(paths) or 1) as pool:
         results = list(pool.map(lambda p: tlc.run("Trace_GitWorktree", "Trace_GitWorktree.cfg", workers=1, constants={"VARIANT": variant},
-                                                  env={"TRACE_FILE": p}, timeout=1500), paths))
+                                                  env={"TRACE_FILE": p}, timeout=1500, heap=TLC_HEAP), paths))
     verdict = {}
     for res, c in zip(results, chunks):
         tlc.must(res)
@@ -270,7 +299,7 @@ def main(tier: str, replay: str | None = None):
                       "worktrees", [w for w in e["post"]["worktrees"] if w["tmp"] != "user"], "tmp", e["post"]["tmpDirs"])
             print("   final:", json.dumps(r["final"])[:900])
             judge(run, r, None, "replay", stats)
-            v = validate_traces(run, [{"tid": "replay", "plan": r["plan"], "init": r["init"], "events": r["events"]}], d, "orig", 1)["replay"]
+            v = validate_traces(run, [{"tid": "replay", "plan": r["plan"], "init": r["init"], "events": r["events"]}], d, BASELINE, 1)["replay"]
             print("   trace:", "accepted" if v[0] == v[1] else "REJECTED: " + describe_reject(v))
         run.finish()
 
@@ -283,13 +312,16 @@ def main(tier: str, replay: str | None = None):
             warm = [pool.submit(c20_worker.run_batch, []) for _ in range(nproc)]     # start + initialise the workers while TLC runs
             # ---- TLC: decide the clauses on the model, enumerate the fault schedules ------------------------
             jobs = {}
-            with ThreadPoolExecutor(max_workers=8) as tp:
+            with ThreadPoolExecutor(max_workers=4) as tp:
                 for name, cs, expect, _rp in doms:
-                    if expect == "hold":
-                        jobs[name, "check"] = tp.submit(tlc.run, "GitWorktree", "GitWorktree_check.cfg", workers=2, constants=dict(cs, EMIT="TRUE"), timeout=1500)
+                    if expect == "leak-gen":
+                        jobs[name, "check"] = tp.submit(tlc.run, "GitWorktree", "GitWorktree_gen.cfg", workers=1, constants=cs, timeout=1500, heap=TLC_HEAP)
+                    elif expect == "hold":
+                        jobs[name, "check"] = tp.submit(tlc.run, "GitWorktree", "GitWorktree_check.cfg", workers=1, constants=dict(cs, EMIT="TRUE"), timeout=1500, heap=TLC_HEAP)
                     else:
-                        jobs[name, "check"] = tp.submit(tlc.run, "GitWorktree", "GitWorktree_check.cfg", workers=2, constants=dict(cs, EMIT="FALSE"), timeout=1500, dump_trace=True)
-                        jobs[name, "gen"] = tp.submit(tlc.run, "GitWorktree", "GitWorktree_gen.cfg", workers=2, constants=cs, timeout=1500)
+                        jobs[name, "check"] = tp.submit(tlc.run, "GitWorktree", "GitWorktree_check.cfg", workers=1, constants=dict(cs, EMIT="FALSE"), timeout=1500, dump_trace=True, heap=TLC_HEAP)
+                        if _rp:
+                            jobs[name, "gen"] = tp.submit(tlc.run, "GitWorktree", "GitWorktree_gen.cfg", workers=1, constants=cs, timeout=1500, heap=TLC_HEAP)
             cases, seen, verdicts, cx = [], set(), {}, []
             for name, cs, expect, rp in doms:
                 res = jobs[name, "check"].result()
@@ -299,10 +331,19 @@ def main(tier: str, replay: str | None = None):
                 if expect == "hold" and res.violated:
                     print(res.tail)
                     die(f"C20: GitWorktree.tla violates {res.violated} in domain {name}, which must be clean: the model is wrong")
+                if expect == "leak-gen":
+                    leaking = [c for c in res.cases if not c["untouched"]]
+                    if res.violated or not leaking:
+                        die(f"C20: domain {name}: TLC must find terminal states violating the Untouched clauses (and nothing else): violated={res.violated} leaking={len(leaking)}")
+                    verdicts[name] = [f"Untouched false in {len(leaking)} of {len(res.cases)} terminal states"]
+                    first = min(leaking, key=lambda c: (len(c["intrs"]), case_key(c)))
+                    cx.append((name, ["Untouched"], dict(first)))
                 if expect == "leak":
                     if not res.violated or not res.trace:
                         die(f"C20: domain {name} must exhibit the recorded defect on the model but TLC found no violation (vacuous model)")
                     last = res.trace[-1]
+                    if not rp:
+                        continue        # model-only regression domain: documented, not replayed
                     cx.append((name, res.violated, {"plan": last["plan"], "intrs": last["intrs"], "outcome": last["outcome"], "exitcode": last["exitcode"], "untouched": False}))
                     gen = jobs[name, "gen"].result()
                     tlc.must(gen)
@@ -361,19 +402,19 @@ def main(tier: str, replay: str | None = None):
         # ---- trace validation: the real executions are behaviours of the spec --------------------------------
         traces = [{"tid": f"t{k}", "src": "", "plan": results[c["key"]]["plan"], "init": results[c["key"]]["init"], "events": results[c["key"]]["events"]} for k, c in enumerate(cases)]
         selftest = corruptions(traces, rnd)
-        verdict = validate_traces(run, traces + selftest, work, "orig", 4 if tier == "quick" else 8)
+        verdict = validate_traces(run, traces + selftest, work, BASELINE, 1 if tier == "quick" else 6)
         timing["trace_tlc_s"] = round(time.time() - run.t0 - timing["tlc_model_s"] - timing["replay_s"], 1)
         run.extra["timing"] = timing
         rejected = [t for t in traces if verdict[t["tid"]][0] != verdict[t["tid"]][1]]
         if rejected:
-            # the code may already carry the proposed fix: rejected traces are re-validated against the
-            # `force` variant of the spec (worktree remove --force)
-            v2 = validate_traces(run, rejected, work, "force", 2)
-            fixed = [t for t in rejected if v2[t["tid"]][0] == v2[t["tid"]][1]]
-            if fixed:
-                run.note(f"{len(fixed)} trace(s) are rejected by GitWorktree(Variant=orig) but accepted by GitWorktree(Variant=force): the code behaves like the proposed --force fix")
-                run.extra["traces_accepted_by_force_variant"] = len(fixed)
-                rejected = [t for t in rejected if t not in fixed]
+            # diagnosis only: does the code behave like the pre-fix variant (no --force) again?  The verdict is
+            # the terminal invariant on the real snapshots (judge), which reports the leak as a VIOLATION.
+            v2 = validate_traces(run, rejected, work, REGRESSION, 2)
+            old = [t for t in rejected if v2[t["tid"]][0] == v2[t["tid"]][1]]
+            if old:
+                run.note(f"REGRESSION: {len(old)} trace(s) are rejected by GitWorktree(Variant={BASELINE}) but accepted by GitWorktree(Variant={REGRESSION}): "
+                         "the code behaves as before the `worktree remove --force` fix")
+                run.extra["traces_accepted_by_regression_variant"] = len(old)
         run.extra["traces_accepted"] = len(traces) - len(rejected)
         run.extra["traces_rejected"] = len(rejected)
         for t in rejected[:5]:
